@@ -101,3 +101,107 @@ pub open spec fn sem_ext2mul(s: Seq<Felt>) -> Seq<Felt> {
         fe(fsub(fmul(fadd(b0, b1), fadd(a1, a0)), fmul(b0, a0))),
         fe(fsub(fmul(b0, a0), fmul(fmul(2, b1), a1)))], 4)
 }
+
+// ---- one VM step as a relation over (stack view, system registers) -----------------------------
+pub struct Regs { pub clk: int, pub fmp: Felt, pub ctx: int, pub in_syscall: bool, pub fn_hash: Seq<Felt> }
+pub open spec fn same_regs_but_clk(g: Regs, g2: Regs) -> bool {
+    g2.fmp == g.fmp && g2.ctx == g.ctx && g2.in_syscall == g.in_syscall && g2.fn_hash == g.fn_hash
+}
+/// operations whose effect on the stack is not fixed by the hub in this unit (memory, hasher
+/// chiplet, FRI/comb helpers): constrained in their own units (C07, C09)
+pub open spec fn op_external(op: Operation) -> bool {
+    op is MLoadW || op is MStoreW || op is MLoad || op is MStore || op is MStream || op is Pipe
+    || op is HPerm || op is MpVerify || op is MrUpdate || op is FriE2F4 || op is RCombBase
+}
+pub open spec fn op_shifts_right(op: Operation) -> bool {
+    op is Pad || op is Dup0 || op is Dup1 || op is Dup2 || op is Dup3 || op is Dup4 || op is Dup5 || op is Dup6
+    || op is Dup7 || op is Dup9 || op is Dup11 || op is Dup13 || op is Dup15 || op is Push || op is AdvPop
+    || op is SDepth || op is Clk || op is U32split
+}
+/// documented operand precondition ("undefined otherwise") of the unchecked u32 arithmetic ops
+pub open spec fn op_pre(op: Operation, s: Seq<Felt>) -> bool {
+    match op {
+        Operation::U32add | Operation::U32sub | Operation::U32mul | Operation::U32div => pre_u32_2(s),
+        Operation::U32add3 | Operation::U32madd => pre_u32_3(s),
+        _ => true,
+    }
+}
+/// failure condition fixed by the documentation
+pub open spec fn op_fail(op: Operation, s: Seq<Felt>, g: Regs) -> bool {
+    match op {
+        Operation::Assert(_) => fail_assert(s),
+        Operation::Inv => fail_inv(s),
+        Operation::And | Operation::Or => fail_and(s),
+        Operation::Not => fail_not(s),
+        Operation::U32assert2(_) | Operation::U32and | Operation::U32xor => fail_u32assert2(s),
+        Operation::U32div => fail_u32div(s),
+        Operation::CSwap | Operation::CSwapW => fail_cswap(s),
+        Operation::FmpUpdate => fail_fmpupdate(s, g.fmp.val()),
+        Operation::Caller => !g.in_syscall,
+        _ => false,
+    }
+}
+/// operations that may also fail for reasons outside the hub (host / chiplets)
+pub open spec fn op_may_fail(op: Operation) -> bool { op_external(op) || op is AdvPop || op is AdvPopW }
+
+/// successful step: stack s -> s2 (registers g -> g2, clk advanced by the caller)
+pub open spec fn op_rel(op: Operation, s: Seq<Felt>, g: Regs, s2: Seq<Felt>, g2: Regs) -> bool {
+    &&& (op is FmpUpdate || same_regs_but_clk(g, g2))
+    &&& match op {
+        Operation::Noop => s2 =~= s,
+        Operation::Assert(_) => s2 =~= sem_assert(s),
+        Operation::FmpAdd => s2 =~= sem_fmpadd(s, g.fmp.val()),
+        Operation::FmpUpdate => s2 =~= sem_drop(s) && g2.fmp.val() == fmp_new(s, g.fmp.val())
+            && g2.ctx == g.ctx && g2.in_syscall == g.in_syscall && g2.fn_hash == g.fn_hash,
+        Operation::SDepth => s2 =~= sem_sdepth(s),
+        Operation::Caller => s2 =~= sem_caller(s, g.fn_hash),
+        Operation::Clk => s2 =~= sem_clk(s, g.clk),
+        Operation::Add => s2 =~= sem_add(s),
+        Operation::Neg => s2 =~= sem_neg(s),
+        Operation::Mul => s2 =~= sem_mul(s),
+        Operation::Inv => s2 =~= sem_inv(s),
+        Operation::Incr => s2 =~= sem_incr(s),
+        Operation::And => s2 =~= sem_and(s),
+        Operation::Or => s2 =~= sem_or(s),
+        Operation::Not => s2 =~= sem_not(s),
+        Operation::Eq => s2 =~= sem_eq(s),
+        Operation::Eqz => s2 =~= sem_eqz(s),
+        Operation::Expacc => s2 =~= sem_expacc(s),
+        Operation::Ext2Mul => s2 =~= sem_ext2mul(s),
+        Operation::U32split => s2 =~= sem_u32split(s),
+        Operation::U32add => s2 =~= sem_u32add(s),
+        Operation::U32add3 => s2 =~= sem_u32add3(s),
+        Operation::U32sub => s2 =~= sem_u32sub(s),
+        Operation::U32mul => s2 =~= sem_u32mul(s),
+        Operation::U32madd => s2 =~= sem_u32madd(s),
+        Operation::U32div => s2 =~= sem_u32div(s),
+        Operation::U32and => s2 =~= sem_u32and(s),
+        Operation::U32xor => s2 =~= sem_u32xor(s),
+        Operation::U32assert2(_) => s2 =~= s,
+        Operation::Pad => s2 =~= sem_pad(s),
+        Operation::Drop => s2 =~= sem_drop(s),
+        Operation::Dup0 => s2 =~= sem_dup(s, 0), Operation::Dup1 => s2 =~= sem_dup(s, 1),
+        Operation::Dup2 => s2 =~= sem_dup(s, 2), Operation::Dup3 => s2 =~= sem_dup(s, 3),
+        Operation::Dup4 => s2 =~= sem_dup(s, 4), Operation::Dup5 => s2 =~= sem_dup(s, 5),
+        Operation::Dup6 => s2 =~= sem_dup(s, 6), Operation::Dup7 => s2 =~= sem_dup(s, 7),
+        Operation::Dup9 => s2 =~= sem_dup(s, 9), Operation::Dup11 => s2 =~= sem_dup(s, 11),
+        Operation::Dup13 => s2 =~= sem_dup(s, 13), Operation::Dup15 => s2 =~= sem_dup(s, 15),
+        Operation::Swap => s2 =~= sem_swap(s),
+        Operation::SwapW => s2 =~= sem_swapw(s), Operation::SwapW2 => s2 =~= sem_swapw2(s),
+        Operation::SwapW3 => s2 =~= sem_swapw3(s), Operation::SwapDW => s2 =~= sem_swapdw(s),
+        Operation::MovUp2 => s2 =~= sem_movup(s, 2), Operation::MovUp3 => s2 =~= sem_movup(s, 3),
+        Operation::MovUp4 => s2 =~= sem_movup(s, 4), Operation::MovUp5 => s2 =~= sem_movup(s, 5),
+        Operation::MovUp6 => s2 =~= sem_movup(s, 6), Operation::MovUp7 => s2 =~= sem_movup(s, 7),
+        Operation::MovUp8 => s2 =~= sem_movup(s, 8),
+        Operation::MovDn2 => s2 =~= sem_movdn(s, 2), Operation::MovDn3 => s2 =~= sem_movdn(s, 3),
+        Operation::MovDn4 => s2 =~= sem_movdn(s, 4), Operation::MovDn5 => s2 =~= sem_movdn(s, 5),
+        Operation::MovDn6 => s2 =~= sem_movdn(s, 6), Operation::MovDn7 => s2 =~= sem_movdn(s, 7),
+        Operation::MovDn8 => s2 =~= sem_movdn(s, 8),
+        Operation::CSwap => s2 =~= sem_cswap(s),
+        Operation::CSwapW => s2 =~= sem_cswapw(s),
+        Operation::Push(v) => s2 =~= sem_push(s, v),
+        Operation::AdvPop => exists|v: Felt| s2 =~= #[trigger] sem_push(s, v),
+        Operation::AdvPopW => exists|w: Seq<Felt>| w.len() == 4 && s2 =~= #[trigger] sem_advpopw(s, w),
+        _ => !is_control(op),   // op_external: see the memory / crypto units
+    }
+}
